@@ -156,10 +156,10 @@ class NativeSym(object):
     def has_digit_run(self, s, k):
         return any(all("0" <= ch <= "9" for ch in s[i:i + k]) for i in range(len(s) - k + 1))
 
-    def symbolic_fs(self, entries):
+    def symbolic_fs(self, entries, root_name="root"):
         """materialise the model's layout as a real directory tree"""
         import os
-        root = os.path.join(self.scratch_dir(), "root")
+        root = os.path.join(self.scratch_dir(), root_name)
         bits = {}
         for i, rel in enumerate(sorted(entries)):
             bits[rel] = bool(self._get("fs%d" % i, False))
